@@ -244,7 +244,15 @@ func (c *Cursor) Fetch(name parser.Identifier, position int, number int) ([]valu
 	case parser.ABSOLUTE:
 		c.index = number
 	case parser.RELATIVE:
-		c.index = c.index + number
+		// The pointer lies between -1 and the number of records: a larger step leaves the result set
+		// (and c.index + number could overflow).
+		if c.view.RecordLen()-c.index < number {
+			c.index = c.view.RecordLen()
+		} else if number < -1-c.index {
+			c.index = -1
+		} else {
+			c.index = c.index + number
+		}
 	case parser.FIRST:
 		c.index = 0
 	case parser.LAST:
